@@ -136,7 +136,7 @@ def refusal_histories(ctx, digital_rf, count):
             sc_ms += fc
         t0 = (rng.randint(315532800, 4102444800) * 1000) // fc * fc
         mode = ["gapped", "contU", "contC"][i % 3]
-        cfg = cd.ChanConfig(n, d, fc, sc_ms // 1000, np.dtype(rng.choice(["<i2", ">f4", "<u1", ">i8"])), bool(i % 2), 1 + i % 2, mode, t0, 6, seed=i)
+        cfg = cd.ChanConfig(n, d, fc, sc_ms // 1000, np.dtype(rng.choice(["<i2", ">f4", "<u1", ">i8"])), bool(i % 2), 1 + i % 2, mode, t0, 7, seed=i)
         root = os.path.join(ctx.work, "chan")
         shutil.rmtree(root, ignore_errors=True)
         os.makedirs(root)
@@ -158,8 +158,11 @@ def refusal_histories(ctx, digital_rf, count):
         a1 = b[k] + rng.choice([0, 0, 1]) * min(1, b[k + 1] - b[k] - 1)
         n1 = rng.choice([1, 2])
         ch.write([[a1, n1]])                                           # the next free period
-        ch.write([[max(b[k + 1], a1 + n1), 1]])
-        ch.write([[b[k + 2], 1]])
+        a2 = max(b[k + 1], a1 + n1)
+        ch.write([[a2, 1]])
+        a3 = max(b[k + 2], a2 + 1)
+        if a3 < b[-1]:
+            ch.write([[a3, 1]])
         ch.close()
         ch.observe([1], rng, npairs=6, nvec=1)
         s4.append(ch.scenario("refusal%d" % i))
